@@ -84,3 +84,10 @@ def find_kani(run, unit, harness, failure):
     pb = unit.run_one(harness, timeout_s=600, playback=True)
     vals = (pb.cex or {}).get("playback_values_in_order_of_kani_any_calls") or []
     return {"found": False, "note": "boundary search found no disagreement on the real code; Kani playback values: %r" % (vals[:4],)}
+
+
+def fallback(run):
+    g = find_writer(run)
+    if g.get("found"):
+        return g
+    return find_reader(run, {})
